@@ -12,8 +12,8 @@ import (
 
 	"github.com/rulego/streamsql"
 	"github.com/rulego/streamsql/functions"
-	"github.com/rulego/streamsql/utils/cast"
 	"github.com/rulego/streamsql/types"
+	"github.com/rulego/streamsql/utils/cast"
 )
 
 // LifeScenario exercises lifecycle operations concurrently (C18).
